@@ -7,6 +7,7 @@ import (
 	"fmt"
 	"math/rand"
 	"reflect"
+	"sort"
 	"strings"
 	"time"
 	"unsafe"
@@ -75,6 +76,23 @@ func runPostAct(rng *rand.Rand, n int) []string {
 					v := reflect.ValueOf(x)
 					record(v, v.Kind() == reflect.Ptr)
 				}
+			case strings.HasPrefix(fn, "anyopenx"):
+				// a second parameter of another (convertible) type: an ordinary input from the chain
+				var et reflect.Type
+				for _, x := range paTypes {
+					if fmt.Sprintf("anyopenx%d", paCode(x)) == fn {
+						et = x
+					}
+				}
+				anyT := reflect.TypeOf((*any)(nil)).Elem()
+				return reflect.MakeFunc(reflect.FuncOf([]reflect.Type{anyT, et}, nil, false), func(in []reflect.Value) []reflect.Value {
+					v := in[0].Elem()
+					record(v, v.Kind() == reflect.Ptr)
+					if in[1].Int() != int64(1000+paCode(et)) {
+						log = append(log, paLogEntry{"badextra", paCode(et), false, in[1].Int()})
+					}
+					return nil
+				}).Interface()
 			case strings.HasPrefix(fn, "ptr"):
 				return reflect.MakeFunc(reflect.FuncOf([]reflect.Type{reflect.PointerTo(t)}, nil, false), func(in []reflect.Value) []reflect.Value {
 					record(in[0], true)
@@ -104,6 +122,10 @@ func runPostAct(rng *rand.Rand, n int) []string {
 				o.fn = "anyval"
 			case 3, 4, 5:
 				o.fn = "anyopen"
+				if rng.Intn(2) == 0 {
+					// with a further parameter, listed after the open interface
+					o.fn = fmt.Sprintf("anyopenx%d", paCode(paTypes[(indexOfType(t)+1+rng.Intn(len(paTypes)-1))%len(paTypes)]))
+				}
 				o.opts = append(o.opts, nject.MatchToOpenInterface(true))
 			case 9: // a pointer to some other type: MakeStructBuilder must refuse
 				t = paTypes[(indexOfType(t)+1)%len(paTypes)]
@@ -247,6 +269,8 @@ func runPostAct(rng *rand.Rand, n int) []string {
 				ic = append(ic, paCode(t))
 			}
 		}
+		ic = uniq(ic)
+		sort.Ints(ic)
 		items := []any{}
 		for _, t := range paTypes {
 			v := reflect.New(t).Elem()
